@@ -32,6 +32,7 @@ type Config struct {
 	Debug        bool
 	OneShotFirst bool
 	CrossCheck   bool
+	SitePrefix   string
 }
 
 type decision struct {
@@ -73,6 +74,7 @@ type siteStat struct {
 	Evaluated  int64 // times reached
 	Symbolic   int64 // times the condition was symbolic (a real query)
 	Discharged int64
+	SymDischarged int64 // discharged by an unsat answer
 	Violated   int64
 	Unknown    int64
 }
@@ -109,6 +111,9 @@ type Explorer struct {
 	t0          time.Time
 }
 
+// pathSem bounds the number of paths executing at once across all runs.
+var pathSem = make(chan struct{}, 16)
+
 type pathAbort struct {
 	kind string // done, infeasible, unsupported, budget, kill, violation-stop
 	msg  string
@@ -144,6 +149,8 @@ type pathCtx struct {
 	steps     int64
 	dead      bool
 	unknownPC bool
+	model     map[string]uint64 // a model of pc, if known
+	modelMemo map[int]uint64
 
 	// scheduler
 	threads      []*thread
@@ -197,15 +204,14 @@ func (ex *Explorer) Run() {
 		go func(id int) {
 			defer wg.Done()
 			w := &worker{id: id}
-			var err error
-			w.inc, err = NewSolver(solverBin)
-			if err != nil {
-				ex.addInconclusive("cannot start solver: " + err.Error())
-				return
-			}
-			w.one, _ = NewSolver(solverBin)
-			defer w.inc.Close()
-			defer w.one.Close()
+			defer func() {
+				if w.inc != nil {
+					w.inc.Close()
+				}
+				if w.one != nil {
+					w.one.Close()
+				}
+			}()
 			for {
 				ex.mu.Lock()
 				for len(ex.work) == 0 && ex.busy > 0 && !ex.stopped {
@@ -221,7 +227,19 @@ func (ex *Explorer) Run() {
 				ex.busy++
 				ex.mu.Unlock()
 
-				ex.runPath(w, pre)
+				pathSem <- struct{}{}
+				if w.inc == nil {
+					var err error
+					w.inc, err = NewSolver(solverBin)
+					if err != nil {
+						ex.addInconclusive("cannot start solver: " + err.Error())
+					}
+					w.one, _ = NewSolver(solverBin)
+				}
+				if w.inc != nil && w.one != nil {
+					ex.runPath(w, pre)
+				}
+				<-pathSem
 
 				ex.mu.Lock()
 				ex.busy--
@@ -324,6 +342,9 @@ func (p *pathCtx) addPC(c *Term) {
 		return
 	}
 	p.pc = append(p.pc, c)
+	if p.model != nil && evalTerm(c, p.model, p.modelMemo) != 1 {
+		p.model = nil
+	}
 	p.known[c.id] = true
 	if c.op == OpNot {
 		p.known[c.args[0].id] = false
@@ -365,11 +386,19 @@ func (p *pathCtx) check(c *Term, timeoutMs int) SatResult {
 		}
 		return Unsat
 	}
+	if p.model != nil && evalTerm(c, p.model, p.modelMemo) == 1 {
+		return Sat
+	}
 	t0 := time.Now()
 	p.emit(c)
 	te := time.Since(t0)
 	p.w.inc.Send("(push 1)\n(assert " + c.ref() + ")\n")
 	r, msg := p.w.inc.CheckSat(timeoutMs)
+	if r == Sat && p.model == nil {
+		// remember a model of pc (it also satisfies c; valid for pc alone)
+		p.model = p.getModel(p.w.inc)
+		p.modelMemo = map[int]uint64{}
+	}
 	p.w.inc.Send("(pop 1)\n")
 	p.count(r)
 	if p.ex.cfg.Debug {
@@ -393,6 +422,46 @@ func (p *pathCtx) count(r SatResult) {
 	default:
 		atomic.AddInt64(&p.ex.unkq, 1)
 	}
+}
+
+// checkKeepModel is check for the side the cached model does not take: the cached model stays.
+func (p *pathCtx) checkKeepModel(c *Term, timeoutMs int) SatResult {
+	saved, memo := p.model, p.modelMemo
+	if saved != nil {
+		p.model = map[string]uint64{} // non-nil placeholder so check() does not overwrite
+		p.modelMemo = map[int]uint64{}
+		if c.IsConst() {
+			p.model, p.modelMemo = saved, memo
+			return p.check(c, timeoutMs)
+		}
+		// evaluate under placeholder would be wrong; bypass model shortcut
+		p.model = nil
+		r := p.checkNoModel(c, timeoutMs)
+		p.model, p.modelMemo = saved, memo
+		return r
+	}
+	return p.check(c, timeoutMs)
+}
+
+func (p *pathCtx) checkNoModel(c *Term, timeoutMs int) SatResult {
+	if c.IsFalse() {
+		return Unsat
+	}
+	if v, ok := p.known[c.id]; ok {
+		if v {
+			return Sat
+		}
+		return Unsat
+	}
+	p.emit(c)
+	p.w.inc.Send("(push 1)\n(assert " + c.ref() + ")\n")
+	r, msg := p.w.inc.CheckSat(timeoutMs)
+	p.w.inc.Send("(pop 1)\n")
+	p.count(r)
+	if r == Unknown && msg != "" && strings.Contains(msg, "(error") {
+		p.ex.addInconclusive("solver error: " + msg)
+	}
+	return r
 }
 
 // checkModel is like check but returns a model on Sat.
@@ -551,16 +620,26 @@ func (p *pathCtx) branch(c *Term, why string) bool {
 		return false
 	}
 	p.pos++
-	rt := p.check(c, p.ex.cfg.BranchMs)
-	var rf SatResult
+	var rt, rf SatResult
+	if p.model != nil && evalTerm(c, p.model, p.modelMemo) == 0 {
+		// the known model of pc takes the false side: only the true side needs the solver
+		rf = Sat
+		if p.unknownPC {
+			rf = Unknown
+		}
+		rt = p.checkKeepModel(c, p.ex.cfg.BranchMs)
+		goto decided
+	}
+	rt = p.check(c, p.ex.cfg.BranchMs)
 	if rt == Unsat {
 		rf = Sat // pc is feasible by invariant
 		if p.unknownPC {
 			rf = Unknown
 		}
 	} else {
-		rf = p.check(nc, p.ex.cfg.BranchMs)
+		rf = p.checkKeepModel(nc, p.ex.cfg.BranchMs)
 	}
+decided:
 	if rt == Unknown || rf == Unknown {
 		atomic.AddInt64(&p.ex.unknownBr, 1)
 	}
@@ -716,6 +795,9 @@ func (p *pathCtx) violation(site, msg string, model map[string]uint64) {
 
 // assert checks an obligation on the current path.
 func (p *pathCtx) assert(site string, c *Term) {
+	if !p.siteWanted(site) {
+		return
+	}
 	st := p.ex.site(site)
 	atomic.AddInt64(&st.Evaluated, 1)
 	if c.IsTrue() {
@@ -737,6 +819,7 @@ func (p *pathCtx) assert(site string, c *Term) {
 	switch r {
 	case Unsat:
 		atomic.AddInt64(&st.Discharged, 1)
+		atomic.AddInt64(&st.SymDischarged, 1)
 		p.addPC(c)
 	case Sat:
 		atomic.AddInt64(&st.Violated, 1)
@@ -774,6 +857,11 @@ func (p *pathCtx) assume(c *Term) {
 		p.unknownPC = true
 	}
 	p.addPC(c)
+}
+
+func (p *pathCtx) siteWanted(site string) bool {
+	pre := p.ex.cfg.SitePrefix
+	return pre == "" || strings.HasPrefix(site, pre)
 }
 
 func (p *pathCtx) reachMark(id string) {
